@@ -1,6 +1,7 @@
 //! fjv — runtime-monitoring harness for fjall (see /verif/DESIGN.md).
 #![allow(dead_code)]
 
+mod engine_life;
 mod engine_model;
 mod exec;
 mod gen;
@@ -96,6 +97,10 @@ fn main() {
         "model" => engine_model::main(&args),
         "replay" => engine_model::replay_main(&args),
         "shrink" => engine_model::shrink_main(&args),
+        "life" => engine_life::main(&args),
+        "life-replay" => engine_life::replay_main(&args),
+        "try-open" => engine_life::try_open_main(&args),
+        "failing-worker-child" => engine_life::failing_worker_child_main(&args),
         _ => {
             eprintln!("usage: fjv <model|replay|...> [--key value]...");
             2
